@@ -304,6 +304,7 @@ type caGen struct {
 	sent    []gNoti
 	seq     []string
 	atomicApart bool
+	atLeaves []caLeaf // (su) leaves below which a subscription asked for a member of the atomic container
 	allowPO bool // path-level origins allowed (outside the cache's stated contract: no replay monitor)
 }
 
@@ -461,7 +462,12 @@ func (g *caGen) genUpdate(target string) (gPath, gUpd, string) {
 	l := g.leaves[r.Intn(len(g.leaves))]
 	cut := r.Intn(len(l.elems) + 1)
 	pre, ph := g.splitLeaf(target, l, cut)
-	if g.allowPO && pre.origin == "" && r.Intn(6) == 0 {
+	if cut == len(l.elems) && r.Intn(2) == 0 {
+		// the leaf is addressed by the prefix alone and the update carries no path field at all
+		// (absent on the wire, a nil *pb.Path in the handler) rather than an empty one
+		ph = gPath{isNil: true}
+	}
+	if g.allowPO && !ph.isNil && pre.origin == "" && r.Intn(6) == 0 {
 		ph.origin = "po"
 	}
 	return pre, gUpd{path: ph, val: genVal(r)}, leafKey(target, l)
@@ -590,6 +596,9 @@ func (g *caGen) step() {
 		g.notiOp(n)
 	case x < 70: // atomic
 		l := g.leaves[r.Intn(len(g.leaves))]
+		if len(g.atLeaves) > 0 && r.Intn(2) == 0 {
+			l = g.atLeaves[r.Intn(len(g.atLeaves))]
+		}
 		if g.atomicApart {
 			// containers never share an index with a plain leaf (su: a plain leaf replaced by a
 			// container at the same index is offered by the container's inner paths)
@@ -684,7 +693,7 @@ func (g *caGen) malformed(t string) {
 		g.notiOp(gNoti{ts: g.now, prefix: pre, upd: []gUpd{u}})
 	default: // origin conflict: origin both in prefix and path (index ignores the latter)
 		pre, u, _ := g.genUpdate(t)
-		if g.allowPO {
+		if g.allowPO && !u.path.isNil {
 			u.path.origin = "po"
 		}
 		g.notiOp(gNoti{ts: g.now, prefix: pre, upd: []gUpd{u}})
